@@ -68,6 +68,8 @@ def generate(rng, tier, index):
     from ..world import gen_forms
 
     call["forms"] = gen_forms(rng)
+    if rng.random() < 0.12:
+        call["agg_hook"] = rng.choice([-2.0, 0.5, 3.0])  # a forward hook registered on the user's aggregator
     alt_inputs = None
     if inputs is not None:
         alt_inputs = list(inputs)
